@@ -122,6 +122,14 @@ namespace ratio
                             }
 
                             std::vector<std::pair<lit, double>> choices;
+                            if (c_mcs.size() == 1)
+                            { // a single atom exceeds the capacity on its own: there is no pair to order, the atom can only be moved to another resource..
+                                expr a0_tau = c_mcs.front()->get(TAU);
+                                if (var_item *a0_tau_itm = dynamic_cast<var_item *>(&*a0_tau))
+                                    if (get_solver().get_sat_core().value(get_solver().get_ov_theory().allows(a0_tau_itm->ev, *rr)) == Undefined)
+                                        choices.emplace_back(!get_solver().get_ov_theory().allows(a0_tau_itm->ev, *rr), 1l - 1l / static_cast<double>(get_solver().enum_value(a0_tau_itm).size()));
+                            }
+                            else
                             for (const auto &as : combinations(std::vector<atom *>(c_mcs.cbegin(), c_mcs.cend()), 2))
                             {
                                 arith_expr a0_start = as[0]->get(RATIO_START);
@@ -360,6 +368,23 @@ namespace ratio
 
     void reusable_resource::rr_flaw::compute_resolvers()
     {
+        if (overlapping_atoms.size() == 1)
+        { // a single atom exceeds the capacity on its own: there is no pair to order, the atom can only be kept away from the resources it does not fit in..
+            atom *a0 = *overlapping_atoms.cbegin();
+            expr a0_tau = a0->get(TAU);
+            if (var_item *a0_tau_itm = dynamic_cast<var_item *>(&*a0_tau))
+            {
+                arith_expr amount = a0->get(REUSABLE_RESOURCE_USE_AMOUNT_NAME);
+                for (const auto &val : get_solver().enum_value(a0_tau_itm))
+                {
+                    arith_expr capacity = static_cast<item *>(val)->get(REUSABLE_RESOURCE_CAPACITY);
+                    if (get_solver().arith_value(amount) > get_solver().arith_value(capacity))
+                        add_resolver(*new forbid_resolver(*this, *a0, *static_cast<item *>(val)));
+                }
+            }
+            return;
+        }
+
         const auto cs = combinations(std::vector<atom *>(overlapping_atoms.cbegin(), overlapping_atoms.cend()), 2);
         for (const auto &as : cs)
         {
